@@ -570,7 +570,8 @@ func buildKS() *ksSetup {
 }
 
 // zone classifies the exact (flipped, centred) position: +1 on (>= 0.501), -1 on negative (<= -0.501),
-// 0 off (|x| <= 0.489), 2 = inside the guard band around the thresholds (unconstrained).
+// 0 off (|x| <= 0.489), +-3 the hold band between 49 % and 50 % (0.491 <= |x| <= 0.499), 2 = inside the guard
+// bands right at the thresholds (unconstrained).
 func (k *ksSetup) zone(raw int64) int {
 	if raw < 0 {
 		return k.zoneLimit(raw, absI(k.min))
@@ -603,6 +604,10 @@ func (k *ksSetup) zoneLimit(raw, limit int64) int {
 		return -1
 	case 1000*absI(f.n) <= 489*f.d:
 		return 0
+	case 1000*f.n >= 491*f.d && 1000*f.n <= 499*f.d:
+		return 3 // hold band of the positive direction (between 49 % and 50 %)
+	case 1000*f.n <= -491*f.d && 1000*f.n >= -499*f.d:
+		return -3
 	}
 	return 2
 }
@@ -661,6 +666,18 @@ func HarnessC08Step() {
 	verifrt.Assert(!(pOn && nOn), "C08: the two directions never sound together")
 	off := midi.NoteEvent(midi.NoteOff, tc, tn, 0)
 	switch z {
+	case 3, -3:
+		// between 49 % and 50 %: a note sounding in this direction keeps sounding, a silent axis stays silent
+		same := (z > 0 && onPos) || (z < 0 && onNeg)
+		if same {
+			if k.max-k.min > 200 { // the 1 % band holds no position of a coarse axis
+				verifrt.Cover("C08: inside the hold band with the note on")
+			}
+			stillOn := (z > 0 && pOn && pv == [2]byte{tn, tc}) || (z < 0 && nOn && nv == [2]byte{tn, tc})
+			verifrt.Assert(n == 0 && stillOn, "C08: a note stays on while deflection is between 49 % and 50 % of travel (it goes off only below 49 %)")
+		} else if !onPos && !onNeg {
+			verifrt.Assert(n == 0 && !pOn && !nOn, "C08: below half travel nothing is turned on")
+		}
 	case 0:
 		verifrt.Cover("C08: back to centre")
 		verifrt.Assert(!pOn && !nOn, "C08: below 49% of travel nothing stays on")
@@ -746,7 +763,7 @@ func HarnessC08Pair() {
 		raw := int64(r)
 		verifrt.Assume(raw >= k.min && raw <= k.max)
 		z := k.zone(raw)
-		verifrt.Assume(z != 2)
+		verifrt.Assume(z != 2 && z != 3 && z != -3) // the hold band is the step harness's subject
 		zs[i] = z
 		dead := k.shapedZero(raw)
 		same := (dead && prevDead) || (!dead && !prevDead && raw == prevRaw && i > 0)
